@@ -54,9 +54,12 @@ def debounce_(
             cancelable.disposable = d
 
             def action(scheduler: abc.SchedulerBase, state: Any = None) -> None:
-                if has_value[0] and _id[0] == current_id:
-                    observer.on_next(value[0])
+                deliver = has_value[0] and _id[0] == current_id
+                # Reset before delivering: the observer may push a new element into
+                # the source from inside on_next, which must stay pending.
                 has_value[0] = False
+                if deliver:
+                    observer.on_next(value[0])
 
             d.disposable = _scheduler.schedule_relative(duetime, action)
 
